@@ -387,7 +387,7 @@ pcgstrf_MemInit(int_t n, int_t annz, superlumt_options_t *superlumt_options,
 	    }
 	    nzumax /= 2;    /* reduce request */
 	    nzlmax /= 2;
-	    if ( nzumax < annz/2 ) {
+	    if ( nzumax < annz/2 || nzumax < 1 ) { /* (annz/2 may be 0) */
 		printf("Not enough memory to perform factorization.\n");
 		return (pcgstrf_memory_use(nzlmax, nzumax, nzlumax) + n);
 	    }
